@@ -47,7 +47,7 @@ def strategy(tier):
         {
             "table": gen.table(1, 12, fields=FIELDS, permute=True, bulk_max=300, bulk_large=(900, 2600),
                                id_strategy=st.one_of(st.integers(1, 5000), st.integers(2**24, 2**26))),
-            "wpath": st.sampled_from(["motl_default", "motl_emmotl", "emmotl_class", "load_then_write", "emmotl_class_with_header"]),
+            "wpath": st.sampled_from(["motl_default", "motl_emmotl", "emmotl_class", "load_then_write", "emmotl_class_with_header", "copy_edited_before_write"]),
             "rpath": st.sampled_from(["load", "emmotl_class"]),
         }
     )
@@ -123,6 +123,16 @@ def run(case):
             return out
         hdr = src[1]
         ok, _ = call(out, "EmMotl(header).write_out", lambda: cryomotl.EmMotl(df.copy(), header=hdr).write_out(path))
+    elif w == "copy_edited_before_write":
+        # two live lists: a second list is loaded from the first and edited in place before the first is written
+        ok, first = call(out, "EmMotl", lambda: cryomotl.EmMotl(df.copy()))
+        if not ok:
+            return out
+        ok, second = call(out, "Motl.load(list)", lambda: cryomotl.Motl.load(first))
+        if not ok:
+            return out
+        _faults.scribble(second)
+        ok, _ = call(out, "EmMotl.write_out", lambda: first.write_out(path))
     else:
         ok, _ = call(out, "Motl.load.write_out", lambda: cryomotl.Motl.load(df.copy()).write_out(path))
     if not ok:
@@ -218,3 +228,10 @@ def run(case):
         bad = oracle.em_motl_mismatch(second, model)
         out.check(bad is None, f"history:second_file_does_not_hold_the_changed_list:{bad}", f"{form} step {step}")
     return out
+
+
+# rejected calls that run before every case (vlib/faults.py): nothing they leave behind - module state, library options,
+# stray files - may make the valid calls of the case violate the statement
+from vlib import faults as _faults  # noqa: E402
+
+fault_calls = _faults.for_property(ID)
